@@ -15,7 +15,7 @@ RULE = ("one case = one instance (p, q, c, penalty|None) plus an encoding; the i
         "int, NumPy int32/int64 or float; keyword or positional call; the arguments must come back unmodified. Shapes 1..7 "
         "(thorough ..12, some ..25), 40% unequal lengths, plus a shape-extreme class (length-1 histograms, 1-2 bins against "
         "up to 20, one side all zero, ties / zeros / upper-triangular asymmetric distances, penalty 0 and penalty < max C); "
-        "masses 0..50 with many zeros, equal-mass (permuted / rebalanced) and unequal-mass; a near-bound class scaled so that "
+        "an isolated-bin class (a non-empty bin at distance max C from every non-empty bin of the other histogram, with explicit penalties 0 .. max C - 1); masses 0..50 with many zeros, equal-mass (permuted / rebalanced) and unequal-mass; a near-bound class scaled so that "
         "max(sum P,sum Q)*max C + |sum P - sum Q|*penalty lies in [0.5,1)*2^31 (huge masses or huge distances); ground "
         "distances: |i-j|, thresholded |i-j|, 2-D grid L1, shortest-path closure of a random graph (metrics), symmetric "
         "non-metric, arbitrary, constant, all-zero, 'many entries equal to max' (node removal and pre_flow_cost); penalty "
@@ -700,7 +700,7 @@ def shrink_candidates(case):
 
 MANIFEST = {
     "level_text": (
-        "Machine-checked proofs (Coq 8.16, 43 theorems, all closed under the global context). (a) The extracted certificate "
+        "Machine-checked proofs (Coq 8.16, 45 theorems, all closed under the global context). (a) The extracted certificate "
         "checker emd_cert_ok is sound for all sizes and inputs: acceptance of (P, Q, C, penalty, d, F, alpha, beta, gamma) "
         "implies that d is exactly the transportation optimum plus penalty*|sum P - sum Q| of the property text (also against "
         "fractional flows) and that F is a feasible integral flow whose cost reproduces d; the value is unique; zero padding "
@@ -717,14 +717,15 @@ MANIFEST = {
         "arcs, ghost node potentials (forward/backward entries of an arc carry opposite reduced costs) along the whole run, and "
         "- under a run-time flag that the model records and the correspondence evaluates for every case (never set) - that all "
         "residual arcs keep reduced cost >= 0 through every iteration, so that the final capacities satisfy complementary "
-        "slackness; fuel sufficiency; the book-keeping of transform_flow_to_regular. The pair addressing of augment is proved "
+        "slackness, and that the capacity flow is conserved (at the end all excesses are zero and outflow - inflow = supply at "
+        "every node); fuel sufficiency; the book-keeping of transform_flow_to_regular. The pair addressing of augment is proved "
         "wrong on graphs with anti-parallel arcs (kernel-evaluated non-terminating witness) and such graphs are proved "
         "unreachable through emd_hat_impl's construction except at the artificial node."),
     "level_note": (
         "Trusted: Coq kernel + vm_compute; extraction (ExtrOcamlBasic only) and the S-expression driver; the Python harness. "
-        "NOT proved (named in Props/C10.v): conservation of the capacity flow over the whole run and its equality with the "
-        "returned x lists (caps_flow_conserved, x_caps_consistent; the per-hop step is proved), hence min-cost optimality of the "
-        "line-level flow without a certificate; that the run never fails; the read_back / my_dist book-keeping through the node "
+        "NOT proved (named in Props/C10.v): the re-indexing of the capacity flow by arcs and its equality with the returned x "
+        "lists (caps_flow_indexing, x_caps_consistent), hence the instantiation of the min-cost certificate on the line-level "
+        "flow; that the run never fails; the read_back / my_dist book-keeping through the node "
         "renaming; that the artificial node is never used (the flag is never set: checked per case, 0 of ~150 000 runs). The "
         "end-to-end statement therefore still rests on the certificate computed inside the algorithm-level model and on the "
         "per-case certificate check of the implementation's output. int is modelled by Z; int32 overflow is excluded by "
